@@ -71,6 +71,12 @@ inline void make_group(Group &G, uint64_t seed, unsigned long psize, unsigned lo
 //  I  a,b: one additional reliable broadcast with payload b is made just before its a-th own broadcast (a false or
 //          duplicated complaint, a stray end marker ...); the sequence numbers of its later broadcasts are shifted
 //  J  a,b: three additional broadcasts b, 1, 1 before its a-th own broadcast (a complaint with two values)
+//  U  a,b: dealer that does not answer complaints.  a = bit mask of victims V; b = variant + 10*sharing + 100*flavour.
+//          In joint sharing number `sharing` of the protocol (Proto::sharing) the private pair (s, s') for every victim
+//          goes out with s+1 (flavour 1), s'+1 (flavour 2) or both (3); in the answer phase (the broadcasts after its
+//          own complaint list) variant 0 = no answer at all (only the end marker), 1 = the answer to the first
+//          complainer is left out, 2 = instead of the answers one valid triple (w, s_bw, s'_bw) for the lowest party w
+//          that did not complain.  Left-out broadcasts are removed from the sequence numbering.
 //  Z  a,b: Byzantine dealer of a ZERO sharing (phase Proto::zero_phase()): with delta = {1, q-1, 42}[b], delta' = 7
 //          a=0 a CONSISTENT Pedersen sharing of a polynomial with constant term delta: the first commitment of the phase
 //              (C_b0 = 1) is broadcast as g^delta h^delta', every private pair (s, s') goes out as (s+delta, s'+delta')
@@ -108,7 +114,11 @@ struct PartyState {
 	std::string evkind;        // per event: 'u' private send, 'b' start of an own broadcast
 	std::vector<int> ucount;
 	bool fired, crashed;
-	int ins_off;               // sequence number shift after an inserted broadcast, valid in channel ins_id
+	int ins_off;               // sequence number shift after an inserted / left-out broadcast, valid in channel ins_id
+	int u_state, u_pos;        // 'U': 0 commitments, 1 own complaint list, 2 answers, 3 done; position inside the answers
+	bool drop_batch;
+	std::string u_answer;
+	std::vector<std::vector<std::string> > u_sent;   // 'U': the private pair dealt to each party in the target sharing
 	std::string ins_id;
 	// coins
 	int phase, weak8;
@@ -117,7 +127,7 @@ struct PartyState {
 	// results
 	int phase_done;
 	std::vector<int> ret;      // -1 not run, 0 false, 1 true
-	PartyState() : faulty(false), events(0), bcasts(0), cur_batch(-1), fired(false), crashed(false), ins_off(0), phase(0), weak8(0), phase_bcast0(0), phase_done(-1) {}
+	PartyState() : faulty(false), events(0), bcasts(0), cur_batch(-1), fired(false), crashed(false), ins_off(0), u_state(0), u_pos(0), drop_batch(false), phase(0), weak8(0), phase_bcast0(0), phase_done(-1) {}
 };
 
 struct Cfg {
@@ -150,7 +160,13 @@ struct Proto {
 	virtual void judge() = 0;                                                             // in the parent
 	virtual std::vector<int> coin_layout(int party) const = 0;                           // leading coins per phase
 	virtual bool rest_matters(int party) const { return false; }
-	virtual int zero_phase() const { return -1; }                                         // phase that is a zero sharing
+	virtual int zero_phase() const { return -1; }
+	// joint sharings with a complaint / answer round: how many, and where number k starts (phase, offset of its private
+	// pair among the private messages of the phase, offset of its first commitment among the own broadcasts of the phase)
+	virtual int sharings() const { return 0; }
+	virtual void sharing(int k, int &ph, int &uoff, int &boff) const { ph = 0, uoff = 0, boff = 0; }
+	virtual bool deals(int party) const { return true; }
+	virtual bool answers_have_markers() const { return true; }                                         // phase that is a zero sharing
 };
 
 struct Viol { std::string key, what; };
@@ -167,6 +183,7 @@ struct World {
 	double secs;
 	time_t t_unicast, t_bcast;
 	std::vector<std::string> logs;     // the library's err stream per party (kept even if the party crashes)
+	std::set<int> bad_share;           // honest parties whose share does not match the commitments (judge_joint)
 	std::map<std::string, int> notes;  // counted, not alarmed: liveness failures and the like
 
 	World(const Cfg &c, const Group *g) : cfg(c), G(g), ps(c.n), livelock(false), vsecs(0), handoffs(0), msgs(0), secs(0),
@@ -292,6 +309,25 @@ inline bool run_world(World &W, Proto &P, uint64_t seed)
 			case 'D':
 				if (to == d.a) { ps.fired = true; return false; }
 				break;
+			case 'U':
+			{
+				int ph, uoff, boff;
+				P.sharing((d.b / 10) % 10, ph, uoff, boff);
+				if (ps.phase != ph || m.is_array || m.v.size() != 1) break;
+				int rel = idx - ((size_t)to < ps.phase_ucount0.size() ? ps.phase_ucount0[to] : 0) - uoff;
+				if (rel != 0 && rel != 1) break;
+				if (ps.u_sent.empty()) ps.u_sent.assign(n, std::vector<std::string>(2, "0"));
+				ps.u_sent[to][rel] = m.v[0];
+				int flavour = d.b / 100;
+				if (((d.a >> to) & 1) && ((rel == 0 && (flavour & 1)) || (rel == 1 && (flavour & 2))))
+				{
+					Mpz v;
+					mpz_set_str(v, m.v[0].c_str(), 10);
+					mpz_add_ui(v, v, 1), mpz_mod(v, v, G.q);
+					m.v[0] = v.s();
+				}
+				break;
+			}
 			case 'Z':
 				if (ps.phase == P.zero_phase() && (d.a == 0 || d.a == 2) && !m.is_array && m.v.size() == 1)
 				{
@@ -325,6 +361,46 @@ inline bool run_world(World &W, Proto &P, uint64_t seed)
 			if (ps.faulty && d.kind == 'C' && ev >= d.a) { ps.fired = true; throw Crash(); }
 		}
 		if (!ps.faulty) return true;
+		if (d.kind == 'U')
+		{
+			if (to == 0)
+			{
+				ps.drop_batch = false;
+				ps.u_answer.clear();
+				int ph, uoff, boff;
+				P.sharing((d.b / 10) % 10, ph, uoff, boff);
+				int r = ps.cur_batch - ps.phase_bcast0 - boff;
+				const int variant = d.b % 10;
+				const bool is_n = m.v[4] == drv::str(n);
+				if (ps.phase == ph && r > t && ps.u_state < 3)
+				{
+					if (ps.u_state == 0) ps.u_state = P.answers_have_markers() ? 1 : 2;
+					if (ps.u_state == 1)
+					{
+						if (is_n) ps.u_state = 2, ps.u_pos = 0;      // end of its own complaint list
+					}
+					else if (P.answers_have_markers() && ps.u_pos % 3 == 0 && is_n)
+						ps.u_state = 3;                                 // end marker of the answers: goes out
+					else
+					{
+						int ti = ps.u_pos / 3, within = ps.u_pos % 3;
+						ps.u_pos++;
+						ps.fired = true;
+						if (variant == 0 || (variant == 1 && ti == 0) || (variant == 2 && ti > 0)) ps.drop_batch = true;
+						else if (variant == 2)
+						{
+							int w = -1;
+							for (int x = 0; x < n; x++) if (x != from && !((d.a >> x) & 1)) { w = x; break; }
+							if (w < 0 || ps.u_sent.empty()) ps.drop_batch = true;
+							else ps.u_answer = within == 0 ? drv::str(w) : ps.u_sent[w][within - 1];
+						}
+						if (ps.drop_batch) ps.ins_off -= 1, ps.ins_id = m.v[0];
+					}
+				}
+			}
+			if (ps.drop_batch) return false;
+			if (!ps.u_answer.empty()) m.v[4] = ps.u_answer;
+		}
 		if ((d.kind == 'I' || d.kind == 'J') && to == 0 && ps.cur_batch == d.a && !ps.fired)
 		{
 			std::vector<std::string> pay;
@@ -346,7 +422,8 @@ inline bool run_world(World &W, Proto &P, uint64_t seed)
 		{
 			Mpz seq;
 			mpz_set_str(seq, m.v[2].c_str(), 10);
-			mpz_add_ui(seq, seq, (unsigned long)ps.ins_off);
+			if (ps.ins_off > 0) mpz_add_ui(seq, seq, (unsigned long)ps.ins_off);
+			else mpz_sub_ui(seq, seq, (unsigned long)(-ps.ins_off));
 			m.v[2] = seq.s();
 		}
 		if (d.kind == 'c' && ps.cur_batch == d.a && to >= d.b) { ps.fired = true; throw Crash(); }
@@ -581,6 +658,8 @@ inline JResult judge_joint(World &W, const std::string &tag, std::vector<JView> 
 			eval_commitments(e, G, v.C[j], v.party);
 			mpz_mul(rhs, rhs, e), mpz_mod(rhs, rhs, G.p);
 		}
+		if (mpz_cmp(lhs, rhs))
+			W.bad_share.insert(v.party);
 		if (mpz_cmp(lhs, rhs))
 			W.viol(tag + "/share-vs-commitments", "g^x_i h^x'_i of honest party " + drv::str(v.party) + " differs from prod_{j in QUAL} prod_k C_jk^{(i+1)^k}, QUAL=" + set_str(v.qual));
 	}
